@@ -2869,6 +2869,12 @@ class Mailbox:
         Creates a mailbox on disk that does not already exist and
         instantiates a Mailbox object for it.
         """
+        # A leading "/" is our hierarchy prefix (see get_mailbox()), it is not
+        # part of the folder's path: `maildir / "/x"` would be the absolute
+        # path "/x", outside of the mail directory.
+        #
+        name = name[1:] if name and name[0] == "/" else name
+
         # You can not create 'INBOX' nor, because of MH rules, create a mailbox
         # that is just the digits 0-9.
         #
@@ -2971,6 +2977,11 @@ class Mailbox:
         - `name`: The name of the mailbox to delete
         - `server`: The user server object
         """
+        # A leading "/" is our hierarchy prefix, not part of the folder's path
+        # (`os.path.join(maildir, "/x")` is "/x").
+        #
+        name = name[1:] if name and name[0] == "/" else name
+
         if name == "inbox":
             raise InvalidMailbox("You are not allowed to delete the inbox")
 
@@ -3097,6 +3108,12 @@ class Mailbox:
         - `new_name`: the new name of the mailbox
         - `server`: the user server object
         """
+        # A leading "/" is our hierarchy prefix, not part of the folder's path
+        # (`os.path.join(maildir, "/x")` is "/x").
+        #
+        old_name = old_name[1:] if old_name and old_name[0] == "/" else old_name
+        new_name = new_name[1:] if new_name and new_name[0] == "/" else new_name
+
         mbox = await server.get_mailbox(old_name)
         # The mailbox we are moving to must not exist.
         #
